@@ -81,7 +81,8 @@ CpcRelOK(st, o) ==
 
 ObsOK(st, o) ==
   /\ On("C01") => (NonDecreasing(o.b) /\ CpcRelOK(st, o))
-  /\ (On("C05") \/ On("C06")) => (o.emp = (st.c = 0) /\ o.c = st.c)
+  \* (C01 too: the ICON estimate of a merged sketch is a function of the coupon count alone)
+  /\ (On("C01") \/ On("C05") \/ On("C06")) => (o.emp = (st.c = 0) /\ o.c = st.c)
 
 \* the table selectors the writer derives (hook): pseudo-phase and Golomb base bits
 SelOK(st, e) ==
